@@ -153,6 +153,8 @@ def emit(model, ch):
         for (an, av) in attrs:
             v = sh.thaw(av)
             items.append(ident(an, ch) if v is None else '%s %s' % (ident(an, ch), value(v, ch)))
+        if abstract and len(items) > 1 and ch.get('explicit_boolean'):
+            items = items[1:] + items[:1]      # the order of the entries carries no meaning: marker last under this choice
         if items:
             s += ' {' + ', '.join(items) + '}'
         lines.append(s + cmt)
